@@ -1237,6 +1237,10 @@ func (v *variantCallPacket) UnmarshalBinary(data []byte) (err error) {
 			return oe.WithMessage(err, "unmarshal command object")
 		}
 		p = p[v.CommandObject.Size():]
+	} else {
+		// No command object in the data, drop the default one, or the Size()
+		// is larger than the bytes consumed and the caller slices beyond the data.
+		v.CommandObject = nil
 	}
 
 	return
